@@ -54,6 +54,9 @@ CHECKS = {
     "C18": dict(cat="other", ref="DESIGN.md §4 C18", technique="E3: the id-allocation kernel read from the real source by AST and its parity/freshness invariant shown inductive in z3 over unbounded integers; E1: CrossHair symbolic execution of channel-over-channel transfer and table hygiene",
                 text="One-step induction (z3, unbounded ints) for id disjointness/freshness over histories of any length, relying on the lock seen in the AST for atomicity of read-and-increment; bounded symbolic execution for (de)serialisation of channels and for the channel tables returning to baseline.",
                 note=E1_NOTE + "; E3 trusts the AST extraction of (start counts, increment, with-lock block) and threading.RLock's mutual exclusion; concurrent newchannel() schedules are not explored beyond that"),
+    "C05": dict(cat="other", ref="DESIGN.md §4 C05 (part b only, see §11)", technique="CrossHair symbolic execution of Group.makegateway/allocate_id/_register with process creation replaced by a recording stub; symbolic live ids and requested id",
+                text="Only the second sentence of the statement (a failing makegateway leaves no process behind) is decided. terminate(timeout)'s promptness and kill behaviour are NOT covered by this check.",
+                note=E1_NOTE + "; part (a) of C05 (terminate returns promptly, group empty, every child exited) is outside: safe_terminate's closures are outside the E2 translator subset and remote process behaviour is the OS's"),
 }
 
 NOT_APPLICABLE = [
